@@ -326,7 +326,8 @@ def build_model(classes, attrs):
         for a, kind in attrs[o._real].items():
             v = o.__dict__.get(a)
             if kind is dict and not v:
-                o.__dict__[a] = {f"{a}-key": f"{a} of {o.id}"}
+                # notes and annotations hold nested lists / dicts (several identifiers per provider)
+                o.__dict__[a] = {f"{a}-key": f"{a} of {o.id}", "nested": [f"{a} of {o.id}", {"deeper": [1, 2]}]} if a in ("notes", "_annotation") else {f"{a}-key": f"{a} of {o.id}"}
             elif kind is list and not v and a != "_contexts":
                 o.__dict__[a] = [f"{a} of {o.id}"]
             elif kind is set and not v:
